@@ -1223,7 +1223,6 @@ def op_factory(a):
 # The model's prediction travels in the line (`claim`, filled in by the generator from the driver's answer to the same
 # line; the model op re-derives it and answers `claim_ok`), so a replay file is self-contained.
 # --------------------------------------------------------------------------------------------
-HEAP_KEYS = ["objects", "claim_ok", "separated_broken", "unexpected_writes"]
 PDU_KINDS = ["ack", "prompt", "keepalive", "nak", "eof", "finished", "metadata", "filedata"]
 ALIAS_INFO: Dict[str, Any] = {"lines": 0, "shared_pairs_predicted": 0, "shared_pairs_observed": 0, "more_separated": {},
                               "writes_predicted": 0, "writes_observed": 0}
@@ -1588,8 +1587,9 @@ def op_heap_alias(a):
     for pr in more:
         k = f"{a['scenario']}: {pr}"
         ALIAS_INFO["more_separated"][k] = ALIAS_INFO["more_separated"].get(k, 0) + 1
-    return {"objects": sorted(obs), "classes": classes, "claim_ok": True, "separated_broken": sorted(broken),
-            "unexpected_writes": unexpected, "written": written, "more_separated": sorted(more), "fewer_writes": fewer}
+    ALIAS_INFO["last"] = {"scenario": a["scenario"], "classes": classes, "written": written, "more_separated": sorted(more), "fewer_writes": fewer}
+    # exactly the keys of the model op (a replay file compares every key)
+    return {"objects": sorted(obs), "claim_ok": True, "separated_broken": sorted(broken), "unexpected_writes": unexpected}
 
 
 OPS = {"c11_tc": _seq_op("tc"), "c11_tm": _seq_op("tm"), "c11_nak": _seq_op("nak"), "c11_ka": _seq_op("ka"),
@@ -2140,12 +2140,12 @@ def alias_lines(rng: random.Random, thorough: bool) -> List[Dict[str, Any]]:
 def alias_cases(rng: random.Random, thorough: bool) -> Iterator[Case]:
     lines = alias_lines(rng, thorough)
     # the model's prediction for each line (the driver evaluates Heap.lean), carried in the line as `claim`
-    answers = core.run_driver([json.dumps(l) for l in lines])
+    answers = core.run_driver([json.dumps(dict(l, op="heap_alias_predict")) for l in lines])
     for l, r in zip(lines, answers):
         m = r.get("ok")
         if isinstance(m, dict):
             l["claim"] = {"separated": m["separated"], "may_write": m["written"], "objects": m["objects"]}
-        yield Case(l, "valid", tag=f"alias-{l['scenario']}", keys=HEAP_KEYS)
+        yield Case(l, "valid", tag=f"alias-{l['scenario']}")
 
 
 class C11(Prop):
